@@ -28,16 +28,17 @@ RULE = (
 ASSUMPTIONS = [
     "slot tags occur only in component templates (incl. fill bodies written there); is_filled probes only in component templates",
     "a Fills body captures at least one fill (otherwise the library treats the body as an implicit default: unspecified, skipped)",
-    "loop variables have unique names (scoping is C03's subject)",
+    "loop variables have unique names (scoping is C03's subject), except that the loop producing looped fills may re-use the name of a loop around the component tag - inside the fill the nearer loop must win",
     "when independent components of one program would raise different error classes, the statement does not say which surfaces first (component templates render in a deferred order): any error class that some order meets first is accepted",
 ]
 
 
 def gen_program(rng):
     if rng.random() < 0.5:
-        prog, skname, g = skeletons.skeleton_program(rng)
+        prog, skname, g = skeletons.skeleton_program(rng, shadow=True)
         return prog, skname
     g = pg.ProgGen(rng, "slots", pyrender=True)
+    g.shadow_loops = True
     return g.program(), "free"
 
 
@@ -60,6 +61,34 @@ def compare(ref, got):
 
 class Env(e1run.E1Env):
     pass
+
+
+K_SHADOW = "C01-looped-fill-name-hidden-by-same-named-binding-of-the-enclosing-template"
+SW_SHADOW = "lexical_captured_layer_below_outer_template"
+
+
+def run_witnesses(spec, rec):
+    """Stored witness of the listed finding: KNOWN-FINDING while the defect is there, silent once it is repaired."""
+    env = Env()
+    for f in spec["findings"]:
+        w = f["witness"]
+        prog, mode = w["program"], w["mode"]
+        rec.case(("witness", f["id"]), nontrivial=False)
+        ref = e1run.reference(prog, mode)
+        built = env.build(prog)
+        try:
+            got = env.render(built, mode, "tag", limit=500)
+        finally:
+            built.dispose()
+        rec.observe("renders-compared")
+        case = {"program": prog, "mode": mode, "variant": "tag", "witness_of": f["id"]}
+        if ref[0] == "ok" and got[0] == "ok" and got[1] == ref[1]:
+            continue
+        if got[0] == "ok" and got[1] == w["observed"]:
+            if not rec.known_finding(f["id"], case, {"what": f"expected {ref[1]!r} observed {got[1]!r}"}):
+                rec.violation("wrong-output", case, {"what": f"expected {ref[1]!r} observed {got[1]!r}"})
+        else:
+            rec.violation("wrong-output", case, {"what": f"witness of {f['id']}: expected {ref[1]!r}, documented defect output {w['observed']!r}, observed {got[:2]!r}"})
 
 
 def check_program(env, rec, prog, origin, seedinfo, do_shrink=True):
@@ -91,6 +120,12 @@ def check_program(env, rec, prog, origin, seedinfo, do_shrink=True):
                 prob = compare(ref, got)
                 if prob:
                     case = {"program": prog, "mode": mode, "variant": variant, "origin": origin, "seed": seedinfo}
+                    # exact defect model of the listed finding (lexically scoped fill written inside a component template:
+                    # a loop variable between tag and fill is hidden by a same-named binding of that template)
+                    if got[0] == "ok" and K_SHADOW in rec.known_ids:
+                        alt = e1run.reference(prog, mode, switches=(SW_SHADOW,))
+                        if alt[0] == "ok" and alt[1] == got[1] and rec.known_finding(K_SHADOW, case, {"what": prob[1][:300]}):
+                            continue
                     if do_shrink:
                         small = shrink_case(env, prog, mode, variant, prob[0])
                         case["shrunk"] = small
@@ -168,7 +203,12 @@ def python_route(env, rec, prog, rng, seedinfo):
                 rec.observe("python-route-renders")
                 prob = compare(ref, got)
                 if prob:
-                    rec.violation("python-route-" + prob[0], {"program": prog3 if ref is ref3 else prog2, "mode": mode, "variant": "python-" + form, "slots": fills, "seed": seedinfo}, {"what": prob[1][:600]})
+                    pcase = {"program": prog3 if ref is ref3 else prog2, "mode": mode, "variant": "python-" + form, "slots": fills, "seed": seedinfo}
+                    if got[0] == "ok" and K_SHADOW in rec.known_ids:
+                        alt = e1run.reference(pcase["program"], mode, switches=(SW_SHADOW,))
+                        if alt[0] == "ok" and alt[1] == got[1] and rec.known_finding(K_SHADOW, pcase, {"what": prob[1][:300]}):
+                            continue
+                    rec.violation("python-route-" + prob[0], pcase, {"what": prob[1][:600]})
                     return
         finally:
             built.dispose()
